@@ -448,4 +448,168 @@ theorem reach_cinv {s : Cl N Conn S Cmd Reply} (r : CReach step s0 s) : CInv ste
   | init => exact cinv_init step s0
   | step _ st ih => exact cinv_step step s0 ih st
 
+
+/-! ## the property theorems -/
+
+/-- `L` is THE replicated log of cluster state `s` as far as any node has applied it: every node's applied log is a prefix of it, and
+    it is the decoded committed prefix of the raft log of the node that is furthest ahead -/
+def SharedLog (s : Cl N Conn S Cmd Reply) (L : List (Entry Nat Cmd)) : Prop :=
+  Multi.Shared s.m L ∧
+  (L = [] ∨ ∃ j, s.ap j ≤ (s.raft.nodes j).commit ∧ L = decLog s.prop ((s.raft.nodes j).log.take (s.ap j)))
+
+theorem shared_log_exists {s : Cl N Conn S Cmd Reply} (r : CReach step s0 s) : ∃ L, SharedLog s L := by
+  have h := reach_cinv step s0 r
+  obtain ⟨L, hL⟩ := Multi.shared_exists step s0 (Multi.reach_ginv step s0 h.mR) (List.finRange N) List.mem_finRange
+  refine ⟨L, hL, ?_⟩
+  rcases hL.2 with h0 | ⟨j, hj⟩
+  · exact Or.inl h0
+  · exact Or.inr ⟨j, h.ap_le j, by rw [hj, h.logs j]⟩
+
+/-- **applied_agree.**  Any two nodes that have applied `n` entries have applied the same `n` entries — same ids, same commands, in
+    the same order — and hold the same state-machine state. -/
+theorem applied_agree {s : Cl N Conn S Cmd Reply} (r : CReach step s0 s) (i j : Fin N)
+    (hlen : (s.m.node i).log.length = (s.m.node j).log.length) :
+    (s.m.node i).log = (s.m.node j).log ∧ (s.m.node i).sm = (s.m.node j).sm :=
+  Multi.applied_agree_len step s0 (reach_cinv step s0 r).mR i j hlen
+
+/-- the node that is behind has applied a prefix of what the other has applied, and holds the state the other held after that prefix -/
+theorem applied_prefix {s : Cl N Conn S Cmd Reply} (r : CReach step s0 s) (i j : Fin N)
+    (hle : (s.m.node i).log.length ≤ (s.m.node j).log.length) :
+    (s.m.node i).log = (s.m.node j).log.take (s.m.node i).log.length ∧
+    (s.m.node i).sm = Rendezvous.runLog step s0 ((s.m.node j).log.take (s.m.node i).log.length) :=
+  Multi.applied_prefix step s0 (reach_cinv step s0 r).mR i j hle
+
+/-- the same by raft index: two nodes with the same applied index have taken the same raft entries (`RS.C15_state_machine_safety`),
+    have applied the same proposals and hold the same state -/
+theorem applied_agree_index {s : Cl N Conn S Cmd Reply} (r : CReach step s0 s) (i j : Fin N) (hap : s.ap i = s.ap j) :
+    (s.raft.nodes i).log.take (s.ap i) = (s.raft.nodes j).log.take (s.ap j) ∧
+    (s.m.node i).log = (s.m.node j).log ∧ (s.m.node i).sm = (s.m.node j).sm := by
+  have h := reach_cinv step s0 r
+  have h1 : (s.raft.nodes i).log.take (s.ap i) = (s.raft.nodes j).log.take (s.ap j) := by
+    rw [← hap]
+    exact RS.C15_state_machine_safety h.raftR i j (s.ap i) (h.ap_le i) (by rw [hap]; exact h.ap_le j)
+  have h2 : (s.m.node i).log = (s.m.node j).log := by rw [h.logs i, h.logs j, h1]
+  exact ⟨h1, h2, (applied_agree step s0 r i j (by rw [h2])).2⟩
+
+/-- **own_reply_cluster.**  Under cluster-wide unique proposal ids (the guards of `submit` / `propose`): in every reachable state of
+    the cluster, for the shared log `L`, the `k`-th reply that connection `c` of ANY node `i` has received is the reply of its own
+    `k`-th command run at the position `j` of that command's entry in `L`: `(step (state after L[0..j)) cmd).2`; the entry is in `L`,
+    it is the only entry of `L` with that id; replies never outnumber submissions, at most one submission is unanswered. -/
+theorem own_reply_cluster {s : Cl N Conn S Cmd Reply} (r : CReach step s0 s) {L : List (Entry Nat Cmd)} (hL : SharedLog s L)
+    (i : Fin N) (c : Conn) : Multi.OwnReplyAt step s0 s.m L i c :=
+  Multi.own_reply_shared step s0 (reach_cinv step s0 r).mR hL.1 i c
+
+/-- **real_time_cross_node.**  If the reply to the `k`-th command of connection `c` of node `i` was received (cluster time `tr`)
+    before the `k'`-th command of connection `c'` of node `i'` was submitted (cluster time `ti`), then the log position of the former
+    is smaller than the log position of the latter (if that one is in the log at all). -/
+theorem real_time_cross_node {s : Cl N Conn S Cmd Reply} (r : CReach step s0 s) {L : List (Entry Nat Cmd)} (hL : SharedLog s L)
+    {i i' : Fin N} {c c' : Conn} {k k' tr ti j j' : Nat} {id id' : Nat} {cmd cmd' : Cmd}
+    (hres : (s.m.resT (i, c))[k]? = some tr) (hinv : (s.m.invT (i', c'))[k']? = some ti) (hlt : tr < ti)
+    (hs : ((s.m.node i).subs c)[k]? = some (id, cmd)) (hs' : ((s.m.node i').subs c')[k']? = some (id', cmd'))
+    (hl : L[j]? = some ⟨id, cmd⟩) (hl' : L[j']? = some ⟨id', cmd'⟩) : j < j' :=
+  Multi.real_time_shared step s0 (reach_cinv step s0 r).mR hL.1 hres hinv hlt hs hs' hl hl'
+
+/-- **C07_linearizable_partial.**  In every reachable state of the cluster — `N` nodes running the reply rendezvous on top of a run of
+    the abstract Raft protocol L0, any `N`, any schedule of elections, replication, message loss and reordering, proposals, applies and
+    client events — the combined history of ALL clients of ALL nodes (invocation = a connection submits a command at its node, response
+    = it receives the reply; both on one cluster clock) is linearizable (Herlihy–Wing: `Rendezvous.Linearizable`, the definition used
+    for one node in `Props/C07Own.lean`) with respect to the state machine `step` from `s0`, and the witness is the log order: the
+    sequential history is the command list of the shared log, each operation sits at its own entry.
+
+    *Partial* — what is assumed, see the file header: unique ids and append-at-most-once (guards of `submit` / `propose`), ONE
+    deterministic `step` for all nodes (for the keyspace: the `Deterministic` fragment, `same_prefix_same_keyspace_partial`), fixed
+    membership, no loss of a node's applied state, closed cluster; a theorem about the models, tied to the code by the suites. -/
+theorem C07_linearizable_partial {s : Cl N Conn S Cmd Reply} (r : CReach step s0 s) :
+    Rendezvous.Linearizable step s0 (Multi.history s.m) := by
+  obtain ⟨L, hL⟩ := shared_log_exists step s0 r
+  exact Multi.linearizable_shared step s0 (reach_cinv step s0 r).mR hL.1
+
+/-- every node of the cluster is a reachable state of the ONE-node rendezvous model under `Rendezvous.UniqueIds`: the theorems of
+    `Props/C07Own.lean` (`no_reply_without_commit`, `waiter_never_stuck_after_apply`, …) hold at each node of the cluster -/
+theorem node_reach {s : Cl N Conn S Cmd Reply} (r : CReach step s0 s) (i : Fin N) : Rendezvous.ReachU step s0 (s.m.node i) :=
+  Multi.reach_node step s0 (reach_cinv step s0 r).mR i
+
+/-- **the composition does not block**: a node with a committed entry it has not applied can apply it (the entry is a no-op or a
+    submitted proposal — never an unknown id) -/
+theorem apply_enabled {s : Cl N Conn S Cmd Reply} (r : CReach step s0 s) (i : Fin N) (hlt : s.ap i < (s.raft.nodes i).commit) :
+    ∃ s', CStep step s s' ∧ s'.ap i = s.ap i + 1 := by
+  have h := reach_cinv step s0 r
+  have hlen := ((RS.reach_inv h.raftR).2.2.2.1.n1 i).1
+  obtain ⟨x, hx⟩ : ∃ x, (s.raft.nodes i).log[s.ap i]? = some x := ⟨_, List.getElem?_eq_getElem (by omega)⟩
+  obtain ⟨t, v⟩ := x
+  by_cases hv : v = 0
+  · subst hv
+    exact ⟨_, .applyNoop s i t hlt hx, by simp⟩
+  · obtain ⟨cmd, hp⟩ := h.where_prop _ _ (data_pos step s0 h hx hv)
+    exact ⟨_, .applyEntry s i t v cmd hlt hx hv hp, by simp⟩
+
+/-! ## replicas: the keyspace model with one environment sequence PER NODE -/
+
+/-- **same_prefix_same_keyspace_partial.**  `Cmd` = argument vectors.  Node `i` has applied no more entries than node `j`.  Then what
+    `i` has applied is a prefix of what `j` has applied (`applied_prefix`), and — with `Exec.C07.replicas_agree` — if the applied
+    commands are `Exec.C07.Deterministic`, running them on the executable keyspace model from the empty keyspace under node `i`'s
+    environments `e1` (its own clock readings, random choices, float parsing at every step) and under node `j`'s environments `e2`
+    gives identical reply lists and identical keyspaces after the common prefix.
+
+    *Partial*: only for `Deterministic` commands.  Outside the fragment the statement is false (`Exec.C07.C07_replicas_statement_false`)
+    — the three recorded findings: relative TTLs (EXPIRE, SETEX, SET EX/PX: each replica's own clock), SPOP / SRANDMEMBER / HRANDFIELD
+    (each replica's own random source), `XADD *` (own clock) — and `classification_tight` shows the fragment cannot be enlarged by
+    command name/options. -/
+theorem same_prefix_same_keyspace_partial {Reply : Type} {step : S → List Resp.Bytes → S × Reply}
+    {s : Cl N Conn S (List Resp.Bytes) Reply} (r : CReach step s0 s) (i j : Fin N)
+    (hle : (s.m.node i).log.length ≤ (s.m.node j).log.length)
+    (hdet : ∀ e, e ∈ (s.m.node j).log → Exec.C07.Deterministic e.cmd = true) (e1 e2 : Nat → Exec.Env) :
+    (s.m.node i).log = (s.m.node j).log.take (s.m.node i).log.length ∧
+    Exec.C07.runLog e1 [] ((s.m.node i).log.map (·.cmd)) =
+      Exec.C07.runLog e2 [] (((s.m.node j).log.map (·.cmd)).take (s.m.node i).log.length) := by
+  have h1 := (applied_prefix step s0 r i j hle).1
+  refine ⟨h1, ?_⟩
+  have hall : ∀ args, args ∈ (s.m.node j).log.map (·.cmd) → Exec.C07.Deterministic args = true := by
+    intro args ha
+    obtain ⟨e, he, rfl⟩ := List.mem_map.1 ha
+    exact hdet e he
+  have := (Exec.C07.replicas_agree _ hall e1 e2 [] Exec.C07.NoDLp.nil.noDeadlines Exec.Db.wf_nil (s.m.node i).log.length).1
+  rw [← List.map_take, ← h1] at this ⊢
+  exact this
+
+/-! ## (c) the instance of `RS.commit_order_respects_real_time` on a run of the composition -/
+
+inductive CSteps (step : S → Cmd → S × Reply) : Cl N Conn S Cmd Reply → Cl N Conn S Cmd Reply → Prop
+  | refl (s) : CSteps step s s
+  | tail {a b c} : CSteps step a b → CStep step b c → CSteps step a c
+
+theorem steps_trans {a b c : RS.Sys N} (h1 : RS.Steps a b) (h2 : RS.Steps b c) : RS.Steps a c := by
+  induction h2 with
+  | refl => exact h1
+  | tail _ st ih => exact .tail ih st
+
+/-- every step of the composition is one L0 step or none -/
+theorem cstep_raft {s s' : Cl N Conn S Cmd Reply} (st : CStep step s s') : RS.Steps s.raft s'.raft := by
+  cases st with
+  | propose l id cmd hl hp honce => exact .tail (.refl _) (RS.Step.clientReq _ l id hl)
+  | raft r' st hnc => exact .tail (.refl _) st
+  | _ => exact .refl _
+
+theorem csteps_raft {s s' : Cl N Conn S Cmd Reply} (st : CSteps step s s') : RS.Steps s.raft s'.raft := by
+  induction st with
+  | refl => exact .refl _
+  | tail _ st ih => exact steps_trans ih (cstep_raft step st)
+
+/-- the state after `propose l id` -/
+def proposeAt (s : Cl N Conn S Cmd Reply) (l : Fin N) (id : Nat) : Cl N Conn S Cmd Reply :=
+  { s with
+    raft := RS.doClientReq s.raft l id
+    whereAt := fun v => if v = id then some ((s.raft.nodes l).term, (s.raft.nodes l).log.length) else s.whereAt v }
+
+/-- **`RS.commit_order_respects_real_time` on the composition**: index `k` is committed in cluster state `s` (e.g. because some node
+    has applied up to `k` and a client has its reply); later (`s1`) a proposal is appended by leader `l` — it lands at raft index
+    `|log l| + 1`; if later still (`s2`) the committed log holds that proposal at that index, then the index is beyond `k`. -/
+theorem real_time_raft_index {s s1 s2 : Cl N Conn S Cmd Reply} (r : CReach step s0 s) {k t : Nat} (c : s.raft.cmt k t)
+    (st1 : CSteps step s s1) (l : Fin N) (id : Nat) (hl : (s1.raft.nodes l).role = .leader)
+    (st2 : CSteps step (proposeAt s1 l id) s2) {m t2 : Nat} (c2 : s2.raft.cmt m t2)
+    (hm : (s1.raft.nodes l).log.length + 1 ≤ m)
+    (hsame : RS.termAt (s2.raft.llog t2) ((s1.raft.nodes l).log.length + 1) = (s1.raft.nodes l).term) :
+    k < (s1.raft.nodes l).log.length + 1 :=
+  RS.commit_order_respects_real_time (reach_cinv step s0 r).raftR c (csteps_raft step st1) l id hl (csteps_raft step st2) c2 hm hsame
+
 end C07Multi
